@@ -36,7 +36,7 @@ const UNITS: [(&str, &str); 20] = [
     ("http://localhost:8080/api", "url-with-port"),
     ("# type: ignore", "hash-directive"),
 ];
-const POSITIONS: [&str; 7] = ["type", "field", "unit-variant", "tagged-variant", "struct-variant-field", "alias", "tagged-type"];
+const POSITIONS: [&str; 9] = ["type", "field", "unit-variant", "tagged-variant", "struct-variant-field", "alias", "tagged-type", "newtype-struct", "unit-enum-type"];
 
 #[derive(Clone, Debug)]
 struct Model {
@@ -93,7 +93,12 @@ fn render(m: &Model) -> String {
     s.push_str(&docs_for(4, "        "));
     s.push_str("        inner: bool,\n    },\n    Last,\n}\n\n");
     s.push_str(&docs_for(5, ""));
-    s.push_str("#[typeshare]\npub type Shortcut = Vec<String>;\n");
+    s.push_str("#[typeshare]\npub type Shortcut = Vec<String>;\n\n");
+    // a one-field tuple struct is shared as an alias of its field's type; the documentation is the struct's
+    s.push_str(&docs_for(7, ""));
+    s.push_str("#[typeshare]\npub struct Wrapped(pub String);\n\n");
+    s.push_str(&docs_for(8, ""));
+    s.push_str("#[typeshare]\npub enum Level {\n    Low,\n    High,\n}\n");
     s
 }
 
@@ -302,7 +307,7 @@ pub fn run(ctx: &Ctx) -> (Spec, Report) {
     rep.count("exhaustive_unit_sequences", n_exh as u64);
     let spec = Spec {
         level: "exploration",
-        rule: format!("doc strings built from the units {{newline, */, /*, //, \"\"\", ''', backslash, #, backtick, plain text, \\u, \\x, \\N{{, \\\"\"\", \"\"\"\", \", **/}} with a sentinel after every unit: all {n_exh} sequences of length 1-3 (positions cycled), then random sequences up to length 12; written as ///, /** */ (plain or in gutter style with bare ` *` paragraph lines) or #[doc = \"..\"], optionally followed by further doc lines; attached to type, field, unit-enum variant, tagged-enum variant, struct-variant field or alias; 6 languages; every sentinel occurrence in the output is classified by the language's tokeniser (CPython tokenize/ast for Python) and must lie in a comment/docstring; the output must tokenise, parse and define exactly what the doc-free twin defines; distinct = (language, position, doc spelling, unit sequence)"),
+        rule: format!("doc strings built from the units {{newline, */, /*, //, \"\"\", ''', backslash, #, backtick, plain text, \\u, \\x, \\N{{, \\\"\"\", \"\"\"\", \", **/, //nolint:gosec, a URL with a port, # type: ignore}} with a sentinel after every unit: all {n_exh} sequences of length 1-3 (positions cycled), then random sequences up to length 12; written as ///, /** */ (plain or in gutter style with bare ` *` paragraph lines) or #[doc = \"..\"], optionally followed by further doc lines; attached to type, field, unit-enum variant, tagged-enum variant, struct-variant field, alias, newtype struct or unit-enum type; 6 languages; every sentinel occurrence in the output is classified by the language's tokeniser (CPython tokenize/ast for Python) and must lie in a comment/docstring; the output must tokenise, parse and define exactly what the doc-free twin defines; distinct = (language, position, doc spelling, unit sequence)"),
         assumptions: vec!["comment/docstring spans come from this harness's lexers and from CPython".into()],
         exhaustive: Some(true),
     };
